@@ -127,6 +127,9 @@ def check(ctx):
     ctx.sub(exch_at_clock_instants, 'C07.S3')
     from . import c16
     ctx.sub(c16.cadence, 'C07.S3')
+    from . import c18
+    ctx.sub(c18.shared_state)          # nothing observed in one run (or by another instance) leaks into this one: state shared across instances is data from "elsewhere in time"
+    ctx.sub(c18.memoisation)
 
 
 def exch_at_clock_instants(ctx, rule):
